@@ -5,6 +5,7 @@ use rayon::prelude::*;
 use serde_json::json;
 use zerv::schema::ZervSchemaPreset;
 use zerv::version::{PEP440, SemVer};
+use zvharness::refmodel::cal;
 use zvharness::refmodel::ren::{self, RComp, RSchema, RVar, RVars};
 use zvharness::zv::{self, Res};
 use zvharness::*;
@@ -155,6 +156,32 @@ fn main() {
         jobs.par_iter().map(|sc| { let mut st = Stats::default(); st.inc("wide_number_schemas"); for (name, v) in &wide_vars { judge(&ctx, sc, name, v, &mut st); } st }).reduce(Stats::default, Stats::merge)
     };
 
+    // every timestamp pattern by name x instants on which calendar year, ISO week-year, month and week number disagree
+    // (the days around New Year whose ISO week belongs to the neighbouring year, leap days, month ends, the epoch) in each
+    // placement: the pattern must print the UTC calendar field, whatever section it sits in
+    let s_ts = {
+        use RComp::{Str, Var as V};
+        let instants: [(&'static str, u64); 18] = [("1970-01-01", 0), ("1999-12-31", 946684799), ("2000-01-01", 946684800), ("2000-01-02", 946771200), ("2000-02-29", 951782400),
+            ("2010-01-03", 1262476800), ("2016-01-03", 1451779200), ("2018-12-31", 1546214400), ("2019-12-30", 1577664000), ("2019-12-31", 1577836799), ("2021-01-01", 1609459200),
+            ("2021-01-03", 1609631999), ("2021-01-04", 1609718400), ("2023-01-01", 1672531200), ("2024-02-29", 1709164800), ("2024-12-30", 1735516800), ("2024-12-31", 1735689599), ("2026-01-01", 1767225600)];
+        let mut tvars: Vec<(&'static str, RVars)> = vec![];
+        for (name, t) in instants {
+            tvars.push((name, RVars { major: Some(1), minor: Some(2), patch: Some(3), bumped_timestamp: Some(t), last_timestamp: Some(1700000000), custom: json!({}), ..Default::default() }));
+        }
+        // only the tag's timestamp is set
+        tvars.push(("last-only-2021-01-02", RVars { major: Some(1), minor: Some(2), patch: Some(3), last_timestamp: Some(1609545600), custom: json!({}), ..Default::default() }));
+        let base = vec![V(RVar::Major), V(RVar::Minor), V(RVar::Patch)];
+        let mut jobs: Vec<RSchema> = vec![];
+        for p in cal::PATTERNS {
+            let w = V(RVar::Ts(p.to_string()));
+            jobs.push(RSchema { core: base.clone(), extra_core: vec![], build: vec![Str("b".into()), w.clone()] });
+            jobs.push(RSchema { core: base.clone(), extra_core: vec![V(RVar::PreRelease), w.clone()], build: vec![] });
+            jobs.push(RSchema { core: vec![w.clone(), V(RVar::Minor), V(RVar::Patch)], extra_core: vec![], build: vec![] });
+            jobs.push(RSchema { core: vec![w.clone(), V(RVar::Ts("MM".into())), V(RVar::Ts("DD".into()))], extra_core: vec![w.clone()], build: vec![w.clone(), V(RVar::Ts("YYYY".into()))] });
+        }
+        jobs.par_iter().map(|sc| { let mut st = Stats::default(); st.inc("timestamp_pattern_schemas"); for (name, v) in &tvars { judge(&ctx, sc, name, v, &mut st); } st }).reduce(Stats::default, Stats::merge)
+    };
+
     // smart preset tiers
     let mut s3 = Stats::default();
     for family in ["standard", "calver"] { for variant in ["", "no-context", "context"] {
@@ -232,14 +259,14 @@ fn main() {
     let (d2, _) = run_space(2, 1, 1);
     if d1.digest != d2.digest { machinery_error("determinism replay diverged"); }
 
-    let all = s1.clone().merge(s2.clone()).merge(s3.clone()).merge(s4.clone()).merge(s_wide);
+    let all = s1.clone().merge(s2.clone()).merge(s3.clone()).merge(s4.clone()).merge(s_wide).merge(s_ts);
     let mut cov = Coverage::default();
     cov.states = all.get("schemas") * asg.len() as u64 + s3.get("tier_cases");
     cov.transitions = all.get("conversions") + s3.get("tier_cli_runs");
     cov.evaluations = all.get("conversions") + s3.get("tier_cli_runs") + s3.get("tier_cases") + s4.get("cli_conformance_cases");
     cov.traces_validated = cov.evaluations;
     cov.distinct_nontrivial = all.get("schemas");
-    cov.rule = format!("valid schemas generated as programs: core sequences over {} components (Major/Minor/Patch order+uniqueness respected, uint/str literals incl. multi-identifier, empty and zero-padded ones, Distance, BumpedBranch, ts, custom), extra_core over {} (Epoch/PreRelease/Post/Dev once each, literals, Dirty, BumpedBranch), build over {}; bounds (core,extra,build) = {} product sizes {n1}+{n2}; each x {} variable assignments x 2 formats, SemVer::from / PEP440::from compared by full string equality with R-REN; smart presets: 6 presets x dirty x distance x pre x post x dev tier table at schema_with_zerv and through the CLI. non-trivial = distinct non-empty schemas", core_alpha.len(), extra_alpha.len(), build_alpha.len(), if quick { "(3,2,1)" } else { "(4,2,1) and (3,3,2)" }, asg.len());
+    cov.rule = format!("valid schemas generated as programs: core sequences over {} components (Major/Minor/Patch order+uniqueness respected, uint/str literals incl. multi-identifier, empty and zero-padded ones, Distance, BumpedBranch, ts, custom), extra_core over {} (Epoch/PreRelease/Post/Dev once each, literals, Dirty, BumpedBranch), build over {}; bounds (core,extra,build) = {} product sizes {n1}+{n2}; each x {} variable assignments x 2 formats, SemVer::from / PEP440::from compared by full string equality with R-REN; the 16 timestamp patterns x 4 placements x 19 instants (New-Year days whose ISO week belongs to the other year, leap days, month ends, the epoch); smart presets: 6 presets x dirty x distance x pre x post x dev tier table at schema_with_zerv and through the CLI. non-trivial = distinct non-empty schemas", core_alpha.len(), extra_alpha.len(), build_alpha.len(), if quick { "(3,2,1)" } else { "(4,2,1) and (3,3,2)" }, asg.len());
     cov.exhaustive = true;
     cov.samples = vec![json!({"core":"Major,str(\"1.2\"),Patch","extra_core":"PreRelease,Dirty","build":"str(\"B-1\")","vars":"all_set"}), json!({"preset":"calver","dirty":false,"distance":0,"post":2}), json!({"core":"str(\"007\"),ts(YYYY)","extra_core":"Epoch","build":"","vars":"zeros"})];
     cov.set("clause_counts", all.to_json());
